@@ -212,7 +212,7 @@ def _expr_hook(ctx: Ctx, mod: Any, cls: Optional[ClassInfo]) -> Any:
     return hook
 
 
-def rule_identifiers(ctx: Ctx, rule: Optional[str] = None) -> None:
+def rule_identifiers(ctx: Ctx, rule: Optional[str] = None, parts: Tuple[str, ...] = ("offset", "constants")) -> None:
     """identifier resolution on one builder driven through its public callbacks (shared with C03.R7: the evaluated values of a
     section are those of that section's own text); recorded under the current rule, or under `rule` when given"""
     repo = ctx.repo
@@ -288,9 +288,33 @@ def rule_identifiers(ctx: Ctx, rule: Optional[str] = None) -> None:
     call(b_, hook_, "on_constant", T(9), "K", VAL2)
     call(b_, hook_, "on_attribute_comment", "")
     results["K in the response"] = call(b_, hook_, "resolve_top_level_identifier", "K")
+    # every value a constant can have is found again by its name - the falsy ones (false, 0, the empty string) included:
+    # real instances of the expression classes, whose truth value is the classes' own
+    from ..absint import construct
+
+    for cname, arg in (("Boolean", False), ("Boolean", True), ("Rational", 0), ("String", "")):
+        kcls = ctx.cls("_expression._primitive." + cname)
+        try:
+            val = construct(ctx, kcls, arg)
+        except (Raised, Unfoldable) as ex:
+            raise AnalysisError("%s(%r) cannot be constructed: %s" % (cname, arg, ex))
+        b_, hook_ = fresh()
+        call(b_, hook_, "on_constant", T(9), "F", val)
+        call(b_, hook_, "on_attribute_comment", "")
+        key = "F = %s(%r)" % (cname, arg)
+        results[key] = call(b_, hook_, "resolve_top_level_identifier", "F")
+        ctx.count()
+    bad_const = []
+    for k in [k for k in results if k.startswith("F = ")]:
+        if type(results[k]).__name__ != "AObj" or results[k]._cls_.name != k[4:].split("(")[0]:
+            bad_const.append({"constant": k, "found": repr(results[k])[:100], "expected": "the constant's value"})
     ctx.count(4)
     want_r = {"K in the request": VAL1, "nope": "raise UndefinedIdentifierError", "K in the response before it is defined there": "raise UndefinedIdentifierError", "K in the response": VAL2}
-    ctx.check(not bad_seq and all(results[k] is want_r[k] or results[k] == want_r[k] for k in want_r), rt.short, "_offset_ -> Set(map(Rational, current schema's offset)) at every point of a growing two-section definition; constants of the current schema by name", "`_offset_` evaluates to the set of lengths of everything before this point in the current schema", rt.where(), {"offset": bad_seq[:3], "identifiers": {k: repr(getattr(v, "label", v))[:80] for k, v in results.items()}}, rule=rule)
+    bad_const += [{"identifier": k, "found": repr(getattr(results[k], "label", results[k]))[:80], "expected": repr(getattr(want_r[k], "label", want_r[k]))} for k in want_r if not (results[k] is want_r[k] or results[k] == want_r[k])]
+    if "offset" in parts:
+        ctx.check(not bad_seq, rt.short, "_offset_ -> Set(map(Rational, current schema's offset)) at every point of a growing two-section definition", "`_offset_` evaluates to the set of lengths of everything before this point in the current schema", rt.where(), {"offset": bad_seq[:3]}, rule=rule)
+    if "constants" in parts:
+        ctx.check(not bad_const, rt.short, "an identifier is the value of the constant of that name in the current section - whatever the value (false, 0 and the empty string included) - and is undefined otherwise", "identifiers evaluate to the constants of the current schema; unknown identifiers are rejected", rt.where(), bad_const[:4], rule=rule)
 
 
 def rule_r3(ctx: Ctx) -> None:
@@ -380,7 +404,7 @@ def rule_r3(ctx: Ctx) -> None:
     if not sel:
         raise AnalysisError("_make_composite: the choice between UnionType and StructureType was not found")
     ctx.check(all(sel), mk.short, "UnionType iff the schema is a union", "the intrinsic and the final type choose union vs structure by the same flag", mk.where(), nontrivial=False)
-    rule_identifiers(ctx)
+    rule_identifiers(ctx, parts=("offset",))
     rt = ctx.cls("_data_type_builder.DataTypeBuilder").methods["resolve_top_level_identifier"]
     # _bit_length_ / _extent_ / constants as attributes of a type: instances are constructed over abstract arguments and asked
     from . import c05 as M
